@@ -169,6 +169,19 @@ CLAIMED["C16"] = ("model_checking",
     "TLA+ ledger spec; TLC-generated operation sequences replayed into the real owning types with a lifetime-logging element and a block-logging allocator; every event validated by TLC as a ledger action",
     "Life", "5 C16")
 
+CLAIMED["C15"] = ("model_checking",
+    "StringOps.tla defines the reference operations on character sequences (construction from C strings / (pointer, "
+    "length) / views, copy, assignment, resize, + and += with views and characters, push_back, length-first compare, ==, "
+    "find_first / find_first_of / find_last, sub_string, starts_with / ends_with, to_number of digit strings, the hash "
+    "recurrence). Strings.tla enumerates every pair of strings over {a, b, NUL} up to length 3-4 and the closed graph "
+    "of an owned string under its mutating operations; the real string / view is run on each case with source buffers "
+    "in exact-size heap blocks under ASan, and StringsTrace.tla compares every observation (including data()[size()] "
+    "== 0 of every owned string) with the reference; a read past a buffer is an event no action matches.",
+    "bounds: alphabet {a, b, NUL}, length <=3 (4 thorough) exhaustively; random pairs to length 5; hash only where it stays below 2^31; "
+    "to_number only for values that fit; a default-constructed string (data() == nullptr, size() == 0) counts as terminated",
+    "TLA+ reference operations + TLC-enumerated input space; real string/view run on every case; observations validated by TLC",
+    "Str", "5 C15")
+
 NOT_YET = "check not built yet in this round (see DESIGN.md build order); not claimed until its TLA+ spec and conformance harness exist"
 
 checks, na = [], []
